@@ -25,7 +25,7 @@ PROPS = {
         "trusted": ["known finding valuation-account-not-opened: generated valuation accounts are never opened (C16_valuation_account_not_opened)"],
     },
     "C06": {
-        "lean": ["Knut.Properties.C06"],
+        "lean": ["Knut.Properties.C06", "Knut.Properties.C06Report"],
         "level": "proof",
         "claim": "PARTIAL proof + repeated-run check. In the model every map iteration / arrival order is the order of a list; proved for all inputs: C06_sort_oracle_irrelevant and "
                  "C06_sorted_fold_oracle_irrelevant (sorting with a total antisymmetric comparator removes the enumeration order: the dict.SortedKeys / compare.Sort sites), C06_sum_oracle_irrelevant "
